@@ -12,6 +12,11 @@ structure St where
   prep : Prep := { buf := [], usedIdx := 0 }
   -- oracle state: spec bytes per object, and whether the object is alias-free
   spec : List (List Nat × Bool) := []
+  /-- oracle state of the Prependable: total size of the buffer, the bytes in use (the spec of `View()`), and whether
+  it is still within its contract (no negative size was asked for) -/
+  pcap : Nat := 0
+  pused : List Nat := []
+  pclean : Bool := false
 deriving Inhabited
 
 def dumpObj (h : Heap) (o : Obj) : String :=
@@ -120,6 +125,34 @@ def oracleStep (st : St) (toks : List String) (res : String) : St × String :=
       -- an object created with an inconsistent size field is outside the spec: mark unclean
       let spec := st.spec ++ [(b, sz == (b.length : Int))]
       ({ st with spec := spec }, check spec)
+    | _, _ => (st, "bad-op")
+  | ["pnew", n] =>
+    match parseInt n with
+    | some n => ({ st with pcap := n.toNat, pused := [], pclean := n ≥ 0 },
+                 if n ≥ 0 && res != "- 0" && res != " 0" then "bad c16.fresh-prependable-not-empty" else "ok")
+    | none => (st, "bad-op")
+  | ["pfromview", h] =>
+    match hexN h with
+    | some b => ({ st with pcap := b.length, pused := b, pclean := true },
+                 if res == s!"{toHexN b} {b.length}" then "ok" else "bad c16.prependable-from-view-differs")
+    | none => (st, "bad-op")
+  | ["prepend", n, fill] =>
+    match parseInt n, hexN fill with
+    | some n, some f =>
+      if !st.pclean then (st, "ok") else
+      if n < 0 then ({ st with pclean := false }, "ok") else
+      let k := n.toNat
+      let room := st.pcap - st.pused.length
+      -- the space is reserved exactly when it fits; a refusal changes nothing; nothing ever panics
+      let written := (f.take k) ++ List.replicate (k - f.length) 0
+      let (want, used') : String × List Nat :=
+        if k ≤ room then (s!"ok {toHexN (written ++ st.pused)} {k + st.pused.length}", written ++ st.pused)
+        else (s!"nil {toHexN st.pused} {st.pused.length}", st.pused)
+      ({ st with pused := used' },
+       if res == want then "ok"
+       else if (res.splitOn "panic").length > 1 then "bad c16.prepend-panics-or-corrupts-after-a-refusal"
+       else if k ≤ room then "bad c16.prepend-reserved-space-or-view-wrong"
+       else "bad c16.refused-prepend-changed-the-buffer")
     | _, _ => (st, "bad-op")
   | [op, i, n] =>
     if op != "trim" && op != "cap" then (st, "ok") else
